@@ -8,7 +8,7 @@
    the object it rebuilds from one, tied to Rule.to_json / Rule.from_json by the rule_codec stream): reading what was
    written gives back the same rule, and two rules stored as the same structure are the same rule. *)
 From Coq Require Import ZArith NArith List Bool.
-From Vakt Require Import Base.PyMonad Base.PyVal Model.Rules Model.Policy Model.RuleJson Proofs.PyValP Proofs.PolicyP Proofs.RuleJsonP Proofs.PolicyJsonP.
+From Vakt Require Import Base.PyMonad Base.PyVal Model.Rules Model.Policy Model.RuleJson Model.PolicyDoc Proofs.PyValP Proofs.PolicyP Proofs.RuleJsonP Proofs.PolicyJsonP Proofs.PolicyDocP.
 Import ListNotations.
 
 (* a document without a uid is refused *)
@@ -105,3 +105,32 @@ Example C09_policy_json_nonvacuous :
   exists s, ctor a = Ok s /\ data_of s <> s /\ from_props (data_of s) = Ok (data_of s) /\
             lookup n_type (data_of s) = Some (AV (VInt 2)).
 Proof. cbv zeta. eexists. split; [vm_compute; reflexivity|]. split; [discriminate|]. split; reflexivity. Qed.
+
+(* ---- the JSON path end to end ---- *)
+(* policy_doc s is the JSON document of a written state (every rule in its stored structure), props_of_doc what
+   jsonpickle rebuilds from a document.  For states whose values have one representation in the model and whose rules are
+   within the rule codec (canon_state), reading the document gives the state back ... *)
+Theorem C09_document_round_trip : forall s, canon_state s = true ->
+  exists d, policy_doc s = Some d /\ forall f, state_depth s <= f -> props_of_doc f d = Some s.
+Proof. exact doc_round_trip. Qed.
+Print Assumptions C09_document_round_trip.
+
+(* ... and so the whole path - construct, to_json, parse, rebuild, Policy.from_json - ends in the written attributes *)
+Theorem C09_json_path_round_trip : forall a s, ctor a = Ok s -> canon_state (data_of s) = true ->
+  exists d, policy_doc (data_of s) = Some d /\
+            forall f, state_depth (data_of s) <= f -> read_doc f d = Ok (data_of s).
+Proof. exact json_path_round_trip. Qed.
+Print Assumptions C09_json_path_round_trip.
+
+Example C09_json_path_nonvacuous :
+  let a := {| c_uid := AV (VStr [112%N]); c_subjects := ASeq true [XRule (RNot (REq (VTup [VInt 1]))); XDict [([107%N], RIn [VInt 2])]];
+              c_effect := AV (VStr s_allow); c_resources := ASeq true []; c_actions := ASeq false [XRule RTruthy];
+              c_context := ACtx [([99%N], RAnd [RAny; RStartsWith [97%N] true])]; c_rules := AV VNone;
+              c_description := AV VNone |} in
+  exists s d, ctor a = Ok s /\ canon_state (data_of s) = true /\ state_depth (data_of s) = 2 /\
+              policy_doc (data_of s) = Some d /\ read_doc 2 d = Ok (data_of s) /\ read_doc 1 d <> Ok (data_of s).
+Proof.
+  cbv zeta. eexists. eexists. split; [vm_compute; reflexivity|]. split; [vm_compute; reflexivity|].
+  split; [vm_compute; reflexivity|]. split; [vm_compute; reflexivity|]. split; [vm_compute; reflexivity|].
+  vm_compute. discriminate.
+Qed.
